@@ -256,8 +256,9 @@ class Runner:
         global WORK
         WORK = []
         meta = {}
+        only = os.environ.get("VERIF_ONLY")  # development aid: restrict to contracts whose qualified name contains this text (evidence goes to out/)
         for c in contracts:
-            if c.assumed:
+            if c.assumed or (only and only not in c.qual):
                 continue
             t1 = time.time()
             try:
